@@ -245,6 +245,17 @@ func (p *Prog) Fn(rel, name string) *ssa.Function {
 	return nil
 }
 
+// RefName: the simple name fn had on the reference tree (its own name unless it was renamed).
+func (p *Prog) RefName(fn *ssa.Function) string {
+	if fn == nil {
+		return ""
+	}
+	if old, ok := p.renamedFrom[p.FnName(fn)]; ok {
+		return old[strings.LastIndex(old, ".")+1:]
+	}
+	return fn.Name()
+}
+
 // indexRenames fills renamedFrom/renamedTo from the reference list.
 func (p *Prog) indexRenames() {
 	p.renamedFrom = map[string]string{}
@@ -266,7 +277,20 @@ func (p *Prog) indexRenames() {
 		present[k] = sigString(obj)
 		byKey[k] = fn
 	}
-	for newKey, oldKey := range renamedFunctions(referenceFns, present) {
+	// static callers of the present functions, as top-level names
+	presentCallers := map[string]string{}
+	for k, fn := range byKey {
+		set := map[string]bool{}
+		for _, ci := range p.realCallers(fn) {
+			root := ci.Parent()
+			for root.Parent() != nil {
+				root = root.Parent()
+			}
+			set[p.FnName(root)] = true
+		}
+		presentCallers[k] = strings.Join(sortedKeys(set), ",")
+	}
+	for newKey, oldKey := range renamedFunctionsC(referenceFns, present, referenceCallers, presentCallers) {
 		p.renamedFrom[newKey] = oldKey
 		p.renamedTo[oldKey] = byKey[newKey]
 	}
